@@ -23,8 +23,8 @@ EXTENDS LinkLayer, LinkCrc, TLC, TLCExt, Json, IOUtils
 Logs == JsonDeserialize(IOEnv.TRACE_FILE)
 Hdrs == JsonDeserialize(IOEnv.HDR_FILE)       \* distinct headers the partner sent, shared by all traces
 
-VARIABLES tid, l, now, status
-tvars == <<vars, tid, l, now, status>>
+VARIABLES tid, l, now, status, rec
+tvars == <<vars, tid, l, now, status, rec>>
 
 ASSUME \A i \in 1..Len(Logs) : TLCSet(i, <<0, "ok">>)
 
@@ -75,6 +75,7 @@ TInit == /\ Init
          /\ l = 1
          /\ now = 0
          /\ status = "ok"
+         /\ rec = [e |-> "init"]
 
 \* Internal steps first (the LBAD -> retry coupling; the keep-alive timer before the record of a link command
 \* start), then the record.
@@ -84,15 +85,14 @@ TNext ==
     /\ UNCHANGED tid
     /\ LET x  == Logs[tid][l]
            dt == IF x.t >= now THEN x.t - now ELSE 0 IN
-       IF todo # <<>> THEN Tau /\ UNCHANGED <<l, now, status>>
-       ELSE IF x.e = "txs" /\ KaDue(Adv(lk, dt)) /\ r_enabled THEN KaReq(dt) /\ UNCHANGED <<l, now, status>>
+       IF todo # <<>> THEN Tau /\ UNCHANGED <<l, now, status, rec>>
+       ELSE IF x.e = "txs" /\ KaDue(Adv(lk, dt)) /\ r_enabled THEN KaReq(dt) /\ UNCHANGED <<l, now, status, rec>>
        ELSE /\ l' = l + 1
             /\ now' = IF x.t >= now THEN x.t ELSE now
-            /\ IF x.t < now THEN status' = "log_time_not_monotonic" /\ UNCHANGED vars
-               ELSE LET r == Abs(x, dt)
-                        j == Judge(r) IN
-                    /\ status' = j
-                    /\ IF j = "ok" THEN Apply(r) ELSE UNCHANGED vars
+            \* (assigned first, so that TLC decodes / judges the record once)
+            /\ rec' = Abs(x, dt)
+            /\ status' = IF x.t < now THEN "log_time_not_monotonic" ELSE Judge(rec')
+            /\ IF status' = "ok" THEN Apply(rec') ELSE UNCHANGED vars
 
 TSpec == TInit /\ [][TNext]_tvars
 
